@@ -386,7 +386,7 @@ func genCase(isGRPC bool) func(*rapid.T) Case {
 		c.Gzip = rng(t, "gzip", 0, 2) == 0
 		g := &genCtx{grpc: isGRPC, longHints: 2, longSlow: 1}
 		if !isGRPC {
-			g.hinted = rng(t, "hinted", 0, 11) == 0
+			g.hinted = rng(t, "hinted", 0, 15) == 0
 		}
 
 		fast := func(elapsed ...int) {
@@ -801,7 +801,10 @@ func evaluate(c Case, ob observation) []vk.Violation {
 	oneBackoff := time.Duration(c.MaxIntervalMS) * time.Millisecond * 3 / 2
 
 	for i, e := range es {
-		if e.BodyErr != "" {
+		if !e.BodySet {
+			// the handler was still reading the request when the log was taken
+			// (only possible for an attempt the client has abandoned)
+		} else if e.BodyErr != "" {
 			// a cancelled / timed-out client legitimately aborts mid-request
 			if undisturbed {
 				bad("payload_unreadable", "attempt %d: the collector could not read the request body: %s", i, e.BodyErr)
@@ -833,7 +836,7 @@ func evaluate(c Case, ob observation) []vk.Violation {
 		if !c.RetryEnabled {
 			bad("retry_while_disabled", "attempt %d although retrying is disabled", i)
 		}
-		if !bytes.Equal(e.Body, es[0].Body) && e.BodyErr == "" && es[0].BodyErr == "" {
+		if e.BodySet && es[0].BodySet && !bytes.Equal(e.Body, es[0].Body) && e.BodyErr == "" && es[0].BodyErr == "" {
 			bad("payload_differs", "attempt %d payload (%d bytes) differs from attempt 0 (%d bytes)", i, len(e.Body), len(es[0].Body))
 		}
 		if prev.Outcome == oRetryable && prev.Hint > 0 && sawAnswer {
@@ -1103,7 +1106,7 @@ func TestHTTPRetry(t *testing.T) {
 	vk.Run(t, vk.Spec[Case]{
 		Property: "C14", Check: "http_retry",
 		Rule: "otlptracehttp / otlpmetrichttp / otlploghttp: answers over {200, 200+partial success, 400, 401, 404, 408, 429, 500, 502, 503, 504, connection closed (FIN/RST), slow, held} x Retry-After {absent, 0, 1, 2, garbage}; " +
-			"Retry-After >= 1 on a retryable answer in ~1/12 of the cases (each costs >= 1 s once the unit defect is repaired); " + ruleCommon,
+			"Retry-After >= 1 on a retryable answer in 1/16 of the cases (~25 per exporter in quick) (each costs >= 1 s once the unit defect is repaired); " + ruleCommon,
 		Quick: 150, Thorough: 1800,
 		Gen: genCase(false), Run: run, Known: known,
 		CaseTimeout: 90 * time.Second, ShrinkTime: 12 * time.Second,
